@@ -106,7 +106,7 @@ class RandomStub:
         hi_a = _np.broadcast_to(_np.asarray(high, dtype=object), shape)
         for idx in _np.ndindex(*shape):
             out[idx] = self._scalar_uniform(lo_a[idx], hi_a[idx])
-        return out
+        return out if self.sx.symbolic else out.astype(float)
 
     def normal(self, loc=0.0, scale=1.0, size=None):
         def one():
@@ -117,7 +117,7 @@ class RandomStub:
         out = _np.empty(shape, dtype=object)
         for idx in _np.ndindex(*shape):
             out[idx] = one()
-        return out
+        return out if self.sx.symbolic else out.astype(float)
 
     def randint(self, a, b=None, size=None):
         lo, hi = (0, a - 1) if b is None else (a, b - 1)   # numpy convention: high exclusive
